@@ -29,6 +29,11 @@ Dump ==
   /\ PrintT(ToJson([k |-> "uneq", a |-> a, b |-> b, eq |-> e]))
   /\ PrintT(ToJson([k |-> "uneq", a |-> InArr(a), b |-> InArr(b), eq |-> UnorderedEq(InArr(a), InArr(b))]))
   /\ PrintT(ToJson([k |-> "uneq", a |-> InObj(a), b |-> InObj2(b), eq |-> UnorderedEq(InObj(a), InObj2(b))]))
+  \* arrays at the top (the array type is an entry point of its own): same length, and different lengths where one
+  \* array is, item-wise, a prefix of the other
+  /\ \A p \in {<<VArr(<<a>>), VArr(<<b>>)>>, <<VArr(<<a>>), VArr(<<b, a>>)>>, <<VArr(<<a, b>>), VArr(<<b>>)>>,
+                <<VArr(<<>>), VArr(<<b>>)>>, <<VArr(<<a, b>>), VArr(<<b, a>>)>>} :
+        PrintT(ToJson([k |-> "uneq", a |-> p[1], b |-> p[2], eq |-> UnorderedEq(p[1], p[2])]))
 
 Laws ==
   LET e == UnorderedEq(a, b) IN
@@ -38,4 +43,8 @@ Laws ==
   /\ UnorderedEq(a, a)
   /\ UnorderedEq(InArr(a), InArr(b)) = e
   /\ UnorderedEq(InObj(a), InObj2(b)) = e
+  \* arrays stay ordered sequences of the same length
+  /\ UnorderedEq(VArr(<<a>>), VArr(<<b>>)) = e
+  /\ ~UnorderedEq(VArr(<<a>>), VArr(<<b, a>>)) /\ ~UnorderedEq(VArr(<<>>), VArr(<<b>>))
+  /\ UnorderedEq(VArr(<<a, b>>), VArr(<<b, a>>)) = e
 =============================================================================
